@@ -8,6 +8,10 @@ CLAIMED = {
    text="Coq theorems (all reals, all shapes): the sign tables translated from arithmetic.py on every run equal the exact corner hull in all four shape branches; every operator / operand kind / side of number.py reduces to that hull element by element, zero divisor raises. Tie: translator + bit-exact in-Coq differential run of the float instance against Interval operators + exact-rational oracle on the implementation.",
    note="Trusted: Coq kernel + vm_compute; Reals axioms (sig_forall_dec, sig_not_dec, functional_extensionality_dep); translate_arith.py; hand model of number.py dispatch/broadcasting validated only by the differential run; IEEE rounding gap (theorems over R, run over binary64, <=16 ulp agreement rule).",
    technique="Coq proof over translated sign tables + in-Coq differential run", ref="5/C01"),
+ "C02": dict(
+   text="Coq theorems (any number of steps n, every selection of one point per focal step, every permutation coupling): the k-th smallest outcome lies in the k-th step of frechet_op's result for any operation nondecreasing on an upward-closed domain (instances: + on all reals, x on non-negative operands); index arithmetic j+k=i / j+k=n-1+i proved pair by pair. Tie: bit-exact in-Coq differential run of the model against frechet_op / naive Frechet (stubs, n<=8) and Pbox.add/sub/mul/div('f') + bare operators at 200 steps; exact oracle enumerates all n! couplings for n<=5 (soundness + attainment) and compares the API with an independent Frank-Nelsen-Sklar reference.",
+   note="Partial: tightness is not a Coq theorem (checked exhaustively by the oracle for n<=5 and by the reference formula at n=200); the zero-straddling product route (naive + Balch + imposition) is not modelled in Coq (oracle: sampled + extremal couplings). Couplings = permutation matrices. Trusted: kernel, Reals axioms, hand model of operation.py/pbox_abc.py validated by the differential run, translate_params.py.",
+   technique="Coq proof (rank/counting argument over all permutations) + in-Coq differential run + exact coupling enumeration", ref="5/C02"),
 }
 NA_REASON = "no check registered yet in this revision of the framework (work in progress, see DESIGN.md section 9)"
 base = json.load(open("/root/.vp/BASELINE.json"))
